@@ -94,6 +94,62 @@ Proof.
   unfold all_loaders. tauto.
 Qed.
 
+(* ---- the statements of Properties.v: the code as it is now = hyp_fixed *)
+Definition hyp := hyp_fixed.
+Lemma envs_satisfy_hyps2 : hyp (fix_env v_db) v_db /\ hyp (fix_env v_dbgrid) v_dbgrid.
+Proof. vm_compute. repeat split; try reflexivity; intro H; discriminate H. Qed.
+Lemma main_all_no_oob : forall E f, hyp E f -> all_loaders (fun A o => no_oob o) E f.
+Proof.
+  intros E f H. pose proof (main_clean_fixed E f H) as HC. unfold all_loaders in *.
+  destruct HC as [C1 [C2 [C3 [C4 [C5 [C6 C7]]]]]].
+  repeat split; match goal with |- no_oob ?o => apply (clean_parts _ o); assumption end.
+Qed.
+Lemma main_all_total : forall E f, hyp E f -> all_loaders (fun A o => no_hang o) E f.
+Proof.
+  intros E f H. pose proof (main_clean_fixed E f H) as HC. unfold all_loaders in *.
+  destruct HC as [C1 [C2 [C3 [C4 [C5 [C6 C7]]]]]].
+  repeat split; match goal with |- no_hang ?o => apply (clean_parts _ o); assumption end.
+Qed.
+Lemma main_all_no_throw : forall E f, hyp E f -> all_loaders (fun A o => no_throw o) E f.
+Proof.
+  intros E f H. pose proof (main_clean_fixed E f H) as HC. unfold all_loaders in *.
+  destruct HC as [C1 [C2 [C3 [C4 [C5 [C6 C7]]]]]].
+  repeat split; match goal with |- no_throw ?o => apply (clean_parts _ o); assumption end.
+Qed.
+Lemma main_all_good : forall E f, hyp E f ->
+  good_outcome wf_db (alloc_bound (flen f)) (load_Db E f) /\
+  good_outcome wf_dbgrid (alloc_bound_grid (flen f)) (load_DbGrid E f) /\
+  good_outcome wf_table (alloc_bound (flen f)) (load_Table E f) /\
+  good_outcome wf_polygons (alloc_bound (flen f)) (load_Polygons E f) /\
+  good_outcome wf_polyelem (alloc_bound (flen f)) (load_PolyElem E f) /\
+  good_outcome wf_polyline (alloc_bound (flen f)) (load_PolyLine2D E f) /\
+  good_outcome wf_faults (alloc_bound (flen f)) (load_Faults E f).
+Proof.
+  intros E f H. destruct (main_db_fixed E f H) as [A1 A2].
+  destruct (good_five E f (hyp_fixed_now _ _ H)) as [A3 [A4 [A5 [A6 A7]]]].
+  exact (conj A1 (conj A2 (conj A3 (conj A4 (conj A5 (conj A6 A7)))))).
+Qed.
+Lemma main_all_alloc : forall E f, hyp E f ->
+  ghost_of (load_Db E f) <= alloc_bound (flen f) /\ ghost_of (load_DbGrid E f) <= alloc_bound_grid (flen f) /\
+  ghost_of (load_Table E f) <= alloc_bound (flen f) /\ ghost_of (load_Polygons E f) <= alloc_bound (flen f) /\
+  ghost_of (load_PolyElem E f) <= alloc_bound (flen f) /\ ghost_of (load_PolyLine2D E f) <= alloc_bound (flen f) /\
+  ghost_of (load_Faults E f) <= alloc_bound (flen f).
+Proof.
+  intros E f H. destruct (main_all_good E f H) as [[_ [A1 _]] [[_ [A2 _]] [[_ [A3 _]] [[_ [A4 _]] [[_ [A5 _]] [[_ [A6 _]] [_ [A7 _]]]]]]]].
+  repeat split; lia.
+Qed.
+Lemma main_all_wf : forall E f, hyp E f ->
+  (forall d, loaded (load_Db E f) d -> wf_db d) /\ (forall x, loaded (load_DbGrid E f) x -> wf_dbgrid x) /\
+  (forall t, loaded (load_Table E f) t -> wf_table t) /\ (forall l, loaded (load_Polygons E f) l -> wf_polygons l) /\
+  (forall p, loaded (load_PolyElem E f) p -> wf_polyelem p) /\ (forall p, loaded (load_PolyLine2D E f) p -> wf_polyline p) /\
+  (forall l, loaded (load_Faults E f) l -> wf_faults l).
+Proof.
+  intros E f H. destruct (main_all_good E f H) as [[_ [_ A1]] [[_ [_ A2]] [[_ [_ A3]] [[_ [_ A4]] [[_ [_ A5]] [[_ [_ A6]] [_ [_ A7]]]]]]]].
+  exact (conj A1 (conj A2 (conj A3 (conj A4 (conj A5 (conj A6 A7)))))).
+Qed.
+Lemma main_all_prefix : forall E f n, hyp E (firstn n f) -> all_loaders (fun A o => clean o) E (firstn n f).
+Proof. intros E f n H. apply main_clean_fixed. assumption. Qed.
+
 (* the primitives never loop and never store, whatever the configuration *)
 Lemma main_recordRead : forall m, reads m (record_word m).
 Proof. exact record_word_reads. Qed.
